@@ -257,6 +257,82 @@ func expand(arg, root, abs string) string {
 
 const magic = "SENTINEL-MAGIC-CONTENT-c11"
 const markerName = "only-outside-the-root.c11-marker"
+const markerDir = "only-outside-the-root.c11-marker-dir"
+
+// survey: what exists on one side of the root boundary - entry names, and the sizes and
+// modification times (in MDTM format) SIZE / MDTM could answer with.
+type survey struct {
+	names, sizes, mtimes map[string]bool
+}
+
+const mdtmLayout = "20060102150405"
+
+func newSurvey() *survey {
+	return &survey{names: map[string]bool{}, sizes: map[string]bool{}, mtimes: map[string]bool{}}
+}
+
+func (s *survey) addMeta(info os.FileInfo) {
+	s.sizes[strconv.FormatInt(info.Size(), 10)] = true
+	s.mtimes[info.ModTime().Format(mdtmLayout)] = true
+}
+
+// surveyOutside: the names of everything under base that is not under root; the root directory
+// itself is an entry of its parent, so its name (not its content) belongs to the outside. Sizes
+// and times are those of the files writeOutside made distinctive (added by the caller).
+func surveyOutside(base, root string) *survey {
+	s := newSurvey()
+	filepath.Walk(base, func(p string, info os.FileInfo, err error) error {
+		if err != nil || p == base {
+			return nil
+		}
+		s.names[info.Name()] = true
+		if p == root {
+			return filepath.SkipDir
+		}
+		return nil
+	})
+	return s
+}
+
+// surveyInside: every entry under root - files and directories - and the root itself (its name
+// excepted).
+func surveyInside(root string) *survey {
+	s := newSurvey()
+	filepath.Walk(root, func(p string, info os.FileInfo, err error) error {
+		if err != nil {
+			return nil
+		}
+		if p != root {
+			s.names[info.Name()] = true
+		}
+		s.addMeta(info)
+		return nil
+	})
+	return s
+}
+
+// outsideNamesIn returns the names in a LIST / NLST payload that exist outside the root and
+// nowhere inside it (at this moment): such a name can only come from a directory outside.
+func outsideNamesIn(data []byte, out, in *survey) []string {
+	var hits []string
+	for _, line := range strings.Split(string(data), "\n") {
+		line = strings.TrimRight(line, "\r")
+		if line == "" {
+			continue
+		}
+		for name := range out.names {
+			if in.names[name] {
+				continue
+			}
+			// NLST: the line is the name; LIST: "<mode><size> <date> <name>"
+			if line == name || strings.HasSuffix(line, " "+name) {
+				hits = append(hits, name)
+			}
+		}
+	}
+	sort.Strings(hits)
+	return hits
+}
 
 type snapshot map[string]string
 
@@ -359,8 +435,23 @@ func checkFTP(c ftpCase) error {
 	for _, d := range []string{"a/b/a", "b"} {
 		os.MkdirAll(filepath.Join(procCwd, d), 0755)
 	}
+	// every regular file outside the root gets a size and a modification time no file inside the
+	// root has (inside: a few dozen bytes, written now), so that a SIZE / MDTM answer taken from an
+	// outside file is recognisable
+	nOutside := 0
+	var outsideFiles []string
+	writeOutside := func(path, content string) {
+		outsideFiles = append(outsideFiles, path)
+		nOutside++
+		if pad := 5000 + 13*nOutside - len(content); pad > 0 {
+			content += strings.Repeat(" ", pad)
+		}
+		os.WriteFile(path, []byte(content), 0644)
+		mt := time.Date(2001, 2, 3, 4, 5, 0, 0, time.Local).Add(time.Duration(nOutside) * 61 * time.Second)
+		os.Chtimes(path, mt, mt)
+	}
 	for _, f := range []string{"f", "a/f", "a/b/f", "b/f", "new", markerName, "a/" + markerName} {
-		os.WriteFile(filepath.Join(procCwd, f), []byte(magic+" proc-cwd"), 0644)
+		writeOutside(filepath.Join(procCwd, f), magic+" proc-cwd")
 	}
 	orig, err := os.Getwd()
 	if err != nil {
@@ -373,17 +464,30 @@ func checkFTP(c ftpCase) error {
 	abs := sentinels[0]
 	for _, s := range sentinels {
 		os.MkdirAll(filepath.Join(s, "a"), 0755)
-		os.WriteFile(filepath.Join(s, "secret.txt"), []byte(magic+" "+filepath.Base(s)), 0644)
-		os.WriteFile(filepath.Join(s, "a", "f"), []byte(magic), 0644)
+		writeOutside(filepath.Join(s, "secret.txt"), magic+" "+filepath.Base(s))
+		writeOutside(filepath.Join(s, "a", "f"), magic)
 		// a name no generated command can create inside the root: seeing it in a listing
 		// proves the listing came from outside
-		os.WriteFile(filepath.Join(s, markerName), []byte(magic), 0644)
-		os.WriteFile(filepath.Join(s, "a", markerName), []byte(magic), 0644)
+		writeOutside(filepath.Join(s, markerName), magic)
+		writeOutside(filepath.Join(s, "a", markerName), magic)
 	}
-	os.WriteFile(filepath.Join(in.FsBase, "f"), []byte(magic), 0644)
+	writeOutside(filepath.Join(in.FsBase, "f"), magic)
 	watched := append(append([]string{}, sentinels...), filepath.Join(in.FsBase, "f"), procCwd)
+	// the directories the root hangs in (its parent and grandparent) hold such names as well, next
+	// to the names they have anyway (the sentinel directories, the root's own name, PROC-CWD)
+	for _, d := range []string{filepath.Join(in.FsBase, "ftp"), in.FsBase} {
+		writeOutside(filepath.Join(d, markerName), magic)
+		os.MkdirAll(filepath.Join(d, markerDir), 0755)
+		watched = append(watched, filepath.Join(d, markerName), filepath.Join(d, markerDir))
+	}
 	before := snap(watched...)
 	outsideBefore := listOutside(in.FsBase, root)
+	out := surveyOutside(in.FsBase, root)
+	for _, f := range outsideFiles {
+		if info, err := os.Lstat(f); err == nil {
+			out.addMeta(info)
+		}
+	}
 	// absolute arguments taken as host paths outside the instance's directory: must not come into being
 	hostAbs := map[string]bool{}
 	for _, st := range c.Steps {
@@ -411,6 +515,9 @@ func checkFTP(c ftpCase) error {
 		}
 	}
 	var leaked []string
+	// mutated: a rename or removal was attempted, after which the working directory may name a
+	// directory that is gone (the statement does not ask for the reported directory to exist)
+	mutated := false
 	// data channel: file content or directory listings; control channel: replies (which echo
 	// the client's own argument, so only the sentinel files' CONTENT counts there)
 	noteData := func(what string, data []byte) {
@@ -460,12 +567,18 @@ func checkFTP(c ftpCase) error {
 				data, _ := io.ReadAll(dc)
 				dc.Close()
 				noteData(line, data)
+				if st.Cmd == "LIST" || st.Cmd == "NLST" {
+					if hits := outsideNamesIn(data, out, surveyInside(root)); len(hits) > 0 {
+						leaked = append(leaked, fmt.Sprintf("%s lists names that exist only outside the root %q: %q", line, hits, clip(data)))
+					}
+				}
 				se.Conn.WaitIdle(10 * time.Second)
 			}
 			for _, l := range fc.newLines() {
 				noteData(line+" reply", []byte(l))
 			}
 		case "RNFR":
+			mutated = true
 			fc.cmd(line)
 			rep, _ := fc.cmd("RNTO " + expand(st.Arg2, root, abs))
 			for _, l := range rep {
@@ -476,24 +589,38 @@ func checkFTP(c ftpCase) error {
 			for _, l := range rep {
 				if strings.HasPrefix(l, "257 ") {
 					wd := strings.TrimPrefix(l, "257 ")
-					if !strings.HasPrefix(wd, "/") || filepath.Clean(wd) != wd {
-						return fmt.Errorf("PWD reports %q (not an absolute clean path) after %s", wd, vlib.JSON(c.Steps))
-					}
+					// the statement speaks of the LOCATION the reported directory denotes: a reply
+					// that is not rooted is read relative to the root
 					if !inside(root, filepath.Join(root, wd)) {
 						return fmt.Errorf("PWD reports %q, outside the root", wd)
 					}
-					if st, err := os.Stat(filepath.Join(root, wd)); err != nil || !st.IsDir() {
-						return fmt.Errorf("PWD reports %q which is not a directory inside the root", wd)
+					if !mutated {
+						if !strings.HasPrefix(wd, "/") || filepath.Clean(wd) != wd {
+							return fmt.Errorf("PWD reports %q (not an absolute clean path) after %s", wd, vlib.JSON(c.Steps))
+						}
+						if st, err := os.Stat(filepath.Join(root, wd)); err != nil || !st.IsDir() {
+							return fmt.Errorf("PWD reports %q which is not a directory inside the root", wd)
+						}
 					}
 				}
 			}
 		default:
 			rep, _ := fc.cmd(line)
+			if st.Cmd == "RMD" || st.Cmd == "DELE" {
+				mutated = true
+			}
 			for _, l := range rep {
-				if st.Cmd == "SIZE" || st.Cmd == "MDTM" {
-					// a 213 reply proves the file was found: only files inside the root may be found;
-					// whether the argument resolves inside is decided by the lexical rule below
-					_ = l
+				if (st.Cmd == "SIZE" || st.Cmd == "MDTM") && strings.HasPrefix(l, "213 ") {
+					// a 213 reply carries the size / modification time of the file that was found: a
+					// value that only files outside the root have was read from outside
+					v := strings.TrimSpace(strings.TrimPrefix(l, "213 "))
+					ins := surveyInside(root)
+					if st.Cmd == "SIZE" && out.sizes[v] && !ins.sizes[v] {
+						leaked = append(leaked, fmt.Sprintf("%s answers %q: the size of a file outside the root (no entry inside has it)", line, l))
+					}
+					if st.Cmd == "MDTM" && out.mtimes[v] && !ins.mtimes[v] {
+						leaked = append(leaked, fmt.Sprintf("%s answers %q: the modification time of a file outside the root (no file inside has it)", line, l))
+					}
 				}
 			}
 		}
@@ -576,6 +703,8 @@ func genFTP(t *rapid.T) ftpCase {
 			// delete, rename then read ...) are as likely as fresh paths
 			if len(used) > 0 && rapid.Bool().Draw(t, "reuse") {
 				st.Arg = rapid.SampledFrom(used).Draw(t, "argAgain")
+			} else if rapid.IntRange(0, 3).Draw(t, "composed") == 0 {
+				st.Arg = genDotDotPath(t)
 			} else {
 				st.Arg = rapid.SampledFrom(ftpPaths).Draw(t, "arg")
 			}
@@ -589,6 +718,150 @@ func genFTP(t *rapid.T) ftpCase {
 			st.Data = uploadData
 		}
 		c.Steps = append(c.Steps, st)
+	}
+	return c
+}
+
+// genDotDotPath composes a path from components: 0..4 components over {a, b, .., ., ''} followed
+// (mostly) by a final "..", relative or absolute, with or without a trailing separator - the
+// paths whose LAST element climbs, at every depth.
+func genDotDotPath(t *rapid.T) string {
+	n := rapid.IntRange(0, 4).Draw(t, "nlead")
+	var parts []string
+	for i := 0; i < n; i++ {
+		parts = append(parts, rapid.SampledFrom([]string{"a", "b", "..", "..", "..", ".", ""}).Draw(t, "lead"))
+	}
+	parts = append(parts, rapid.SampledFrom([]string{"..", "..", "..", "..", ".", "a", "SENTINEL"}).Draw(t, "last"))
+	p := strings.Join(parts, "/")
+	if rapid.IntRange(0, 2).Draw(t, "abs") == 0 {
+		p = "/" + p
+	}
+	if rapid.IntRange(0, 3).Draw(t, "trail") == 0 {
+		p += "/"
+	}
+	return p
+}
+
+// what an escaping relative path continues with once it has climbed: nothing, or names that
+// exist beside / above the root (some of them also inside it). The marker names are never part
+// of a generated path: no command may be able to create them inside the root.
+var climbTails = []string{"", "", "", "SENTINEL", "SENTINEL/secret.txt", "SENTINEL/a", "SENTINEL/a/f", "{ROOT}x", "{ROOT}x/secret.txt", "PROC-CWD", "PROC-CWD/f", "f", "ftp/SENTINEL/secret.txt", "SENTINEL-UP2", "SENTINEL-UP2/secret.txt", "screen.png", "new-outside"}
+
+// genClimb: k dot-dots (k around the depth the working directory has or should have: one less,
+// exactly, one more, two more - or anything up to 6) followed by a tail.
+func genClimb(t *rapid.T, depths []int) string {
+	var ks []int
+	for _, d := range depths {
+		ks = append(ks, d, d+1, d+1, d+2)
+		if d > 0 {
+			ks = append(ks, d-1)
+		}
+	}
+	ks = append(ks, rapid.IntRange(0, 6).Draw(t, "anyK"))
+	k := rapid.SampledFrom(ks).Draw(t, "k")
+	tail := rapid.SampledFrom(climbTails).Draw(t, "tail")
+	p := strings.Repeat("../", k) + tail
+	if tail == "" && rapid.IntRange(0, 3).Draw(t, "trail") != 0 {
+		p = strings.TrimSuffix(p, "/")
+	}
+	if p == "" {
+		p = "."
+	}
+	return p
+}
+
+// relFrom names the virtual path target (components) relative to the directory dir (components):
+// up to the root, then down; with a common prefix optionally kept.
+func relFrom(dir, target []string, short bool) string {
+	common := 0
+	if short {
+		for common < len(dir) && common < len(target) && dir[common] == target[common] {
+			common++
+		}
+	}
+	p := strings.Repeat("../", len(dir)-common) + strings.Join(target[common:], "/")
+	p = strings.TrimSuffix(p, "/")
+	if p == "" {
+		p = "."
+	}
+	return p
+}
+
+// genHistory: structured histories the flat generator hardly ever composes. The client goes into
+// a directory D of the tree (in one step or component-wise, by absolute or relative names; D may
+// be a directory it made itself), then (3 of 4) renames D or one of D's ancestors - named
+// absolutely or relative to D, to a new name in the same place, directly under the root or under
+// another directory, so the depth of the directory it is in may change - and then, WITHOUT a
+// further CWD/CDUP, issues 1..3 commands with relative paths that climb by about as many dot-dots
+// as the working directory is (or was) deep.
+func genHistory(t *rapid.T) ftpCase {
+	var c ftpCase
+	c.Twins = rapid.IntRange(0, 3).Draw(t, "twins") > 0
+	add := func(cmd, arg, arg2 string) {
+		st := ftpStep{Cmd: cmd, Arg: arg, Arg2: arg2}
+		if cmd == "STOR" || cmd == "APPE" {
+			st.Data = uploadData
+		}
+		c.Steps = append(c.Steps, st)
+	}
+	D := rapid.SampledFrom([][]string{{"a"}, {"a", "b"}, {"a", "b", "a"}, {"b"}, {"new"}, {"a", "new"}}).Draw(t, "dir")
+	if D[len(D)-1] == "new" {
+		add("MKD", "/"+strings.Join(D, "/"), "")
+	}
+	switch rapid.IntRange(0, 2).Draw(t, "cwdMode") {
+	case 0:
+		add("CWD", "/"+strings.Join(D, "/"), "")
+	case 1:
+		add("CWD", strings.Join(D, "/"), "")
+	default:
+		for _, comp := range D {
+			add("CWD", comp, "")
+		}
+	}
+	depths := []int{len(D)}
+	if rapid.IntRange(0, 3).Draw(t, "rename") > 0 {
+		L := rapid.IntRange(1, len(D)).Draw(t, "level") // rename the ancestor-or-self D[:L]
+		src := D[:L]
+		var from string
+		switch rapid.IntRange(0, 2).Draw(t, "fromMode") {
+		case 0:
+			from = "/" + strings.Join(src, "/")
+		case 1:
+			from = relFrom(D, src, true) // ".", "..", "../.."
+		default:
+			from = relFrom(D, src, false) // all the way up, then down
+		}
+		var dst []string
+		switch rapid.IntRange(0, 3).Draw(t, "toPlace") {
+		case 0, 1: // new name in the same place
+			dst = append(append([]string{}, src[:L-1]...), "e")
+		case 2: // directly under the root
+			dst = []string{"e"}
+		default: // under another directory of the tree
+			dst = append(rapid.SampledFrom([][]string{{"b"}, {"a"}, {"a", "b"}}).Draw(t, "toDir"), "e")
+		}
+		var to string
+		switch rapid.IntRange(0, 2).Draw(t, "toMode") {
+		case 0:
+			to = "/" + strings.Join(dst, "/")
+		case 1:
+			to = relFrom(D, dst, true)
+		default:
+			to = relFrom(D, dst, false)
+		}
+		add("RNFR", from, to)
+		depths = append(depths, len(dst)+len(D)-L)
+	}
+	for k := rapid.IntRange(1, 3).Draw(t, "nprobes"); k > 0; k-- {
+		cmd := rapid.SampledFrom([]string{"SIZE", "MDTM", "RETR", "LIST", "LIST", "NLST", "NLST", "DELE", "RMD", "MKD", "STOR", "APPE", "RNFR", "PWD"}).Draw(t, "probe")
+		switch cmd {
+		case "PWD":
+			add(cmd, "", "")
+		case "RNFR":
+			add(cmd, genClimb(t, depths), genClimb(t, depths))
+		default:
+			add(cmd, genClimb(t, depths), "")
+		}
 	}
 	return c
 }
@@ -620,7 +893,7 @@ func TestFTPContainment(t *testing.T) {
 		}
 		return
 	}
-	r.Rule("end to end: command sequences of 1..5 over CWD/CDUP/PWD/MKD/RMD/DELE/RNFR+RNTO/STOR/APPE/REST n/RETR/LIST/NLST/MDTM/SIZE with escaping path arguments (half of them re-using a path of an earlier step; uploads in all three modes: plain, append armed by APPE, append armed by REST with boundary offsets) against the real FTP service on a fresh instance (in-memory control connection, real passive data sockets on loopback); root populated with a small tree and (3 of 4 cases) inside twins of the outside names, sentinel trees beside it (../SENTINEL, a sibling whose name extends the root's name, ../../SENTINEL-UP2, a file in the base dir) plus the locations a raw client path denotes on the host: the working directory of the server process (a sentinel directory beside the root holding the root's names) and the absolute path of a sentinel mirrored inside the root; oracle = sentinel snapshot (names, sizes, hashes) and the set of directory entries outside the root identical before/after, no data or reply contains sentinel names or content, every PWD reply absolute, clean and an existing directory inside the root; non-trivial = a path with '..' or absolute in a command that touches the filesystem")
+	r.Rule("end to end: command sequences of 1..5 over CWD/CDUP/PWD/MKD/RMD/DELE/RNFR+RNTO/STOR/APPE/REST n/RETR/LIST/NLST/MDTM/SIZE with escaping path arguments (half of them re-using a path of an earlier step, a quarter of the fresh ones composed from 0..4 components over {a, b, .., ., ''} plus a final component that is mostly '..', relative/absolute, with/without trailing separator; uploads in all three modes: plain, append armed by APPE, append armed by REST with boundary offsets) against the real FTP service on a fresh instance (in-memory control connection, real passive data sockets on loopback); root populated with a small tree and (3 of 4 cases) inside twins of the outside names, sentinel trees beside it (../SENTINEL, a sibling whose name extends the root's name, ../../SENTINEL-UP2, a file in the base dir) plus the locations a raw client path denotes on the host: the working directory of the server process (a sentinel directory beside the root holding the root's names) and the absolute path of a sentinel mirrored inside the root; oracle = sentinel snapshot (names, sizes, hashes) and the set of directory entries outside the root identical before/after, no data or reply contains sentinel content, no LIST/NLST payload contains a name that exists outside the root (the sentinels, the root's own name, PROC-CWD, marker file/directory in the root's parent and grandparent ...) and nowhere inside it at that moment, no SIZE/MDTM reply carries a size / modification time that only the outside files have (they are given distinctive ones), every PWD reply denotes a location inside the root (and, as long as nothing was renamed or removed, is absolute, clean and an existing directory); non-trivial = a path with '..' or absolute in a command that touches the filesystem")
 	r.Rapid(t, "TestFTPContainment", r.Pick(100, 2500), func(rt *rapid.T) {
 		c := genFTP(rt)
 		fp := ""
@@ -633,6 +906,35 @@ func TestFTPContainment(t *testing.T) {
 				rt.Fatalf("%v", err)
 			}
 			r.Fail(rt, "TestFTPContainment", c, "%v", err)
+		}
+	})
+}
+
+func TestFTPHistories(t *testing.T) {
+	r := vlib.Open(prop)
+	var fc ftpCase
+	if vlib.ReplayCase("TestFTPHistories", &fc) {
+		if err := checkFTP(fc); err != nil {
+			if strings.HasPrefix(err.Error(), "infra:") {
+				t.Fatalf("%v", err)
+			}
+			r.Violation(t, "TestFTPHistories", fc, err.Error())
+		}
+		return
+	}
+	r.Rule("end to end, structured histories: go into a directory of the tree (1..3 deep, existing or just made; one CWD or component-wise; absolute or relative), then (3 of 4) rename that directory or one of its ancestors with RNFR/RNTO (source and target named absolutely or relative to the working directory; target in the same place, directly under the root or under another directory, so the depth may change), then - with no further CWD/CDUP - 1..3 of SIZE/MDTM/RETR/LIST/NLST/DELE/RMD/MKD/STOR/APPE/RNFR+RNTO/PWD with relative paths of k dot-dots, k sampled around the old and new depth of the working directory (d-1, d, d+1, d+2, any 0..6), followed by nothing or by a name that exists beside/above the root; same instance layout and oracle as TestFTPContainment; non-trivial = always (every probe path climbs)")
+	r.Rapid(t, "TestFTPHistories", r.Pick(45, 1200), func(rt *rapid.T) {
+		c := genHistory(rt)
+		fp := ""
+		if nontrivialFTP(c) {
+			fp = vlib.JSON(c)
+		}
+		r.Case("ftp/history", fp, func() interface{} { return c })
+		if err := checkFTP(c); err != nil {
+			if strings.HasPrefix(err.Error(), "infra:") {
+				rt.Fatalf("%v", err)
+			}
+			r.Fail(rt, "TestFTPHistories", c, "%v", err)
 		}
 	})
 }
